@@ -7,11 +7,12 @@ from vmon.oracle.util import elements_of, deep_diff, clone
 
 PROPERTY = "C04"
 RULE = ("Planted structures with non-overlapping copies (any pose, 0-3 faces crossed, all cell classes), bystanders near "
-        "and far, random pre-existing labels/groups; replacement patterns {empty, smaller, equal, larger, far-reaching} "
+        "and far (one structure in three: up to three of them stored 0.02-0.4 A outside the box or exactly on a far face), random pre-existing labels/groups; replacement patterns {empty, smaller, equal, larger, far-reaching} "
         "x {with, without shared atoms}; fractions {0,0.1,0.25,1/3,0.5,0.9,1,random}; replace_all on/off; RNG "
         "schedules (seeded sample, stubbed first-k / last-k). The recorded history of each real call (find result, "
         "sample draw, extend and delete calls, deep snapshots of the three inputs) is checked offline, keyed by unique "
-        "atom ids carried in the charges: removed atoms = exactly the search-only atoms of the selected matches; "
+        "atom ids carried in the charges (the role of each matched atom is that of the planted correspondence when the order the search "
+        "lists them in is, by more than 4 tolerances, no rigid image of the pattern): removed atoms = exactly the search-only atoms of the selected matches; "
         "inserted atoms = one per replacement-only atom per match with its element/charge/group; every other atom "
         "keeps position (bitwise), element, label, mass, charge, group and relative order; counts per element; number "
         "replaced is a nearest integer to f*found and equals the reported count; only found matches are replaced; the "
